@@ -728,15 +728,31 @@ def run(rep: Report, prog: Program, tier: str) -> None:
         rep.ok("C03-STARTED", "RTCIceTransport.start: every normal exit awaited connect() or the event of the start in progress", sample=f"{len(act.returns)} exits; event(s) {sorted(set_attrs)}")
     connect = prog.func(PC + ".__connect")
     seen = {"dtls": 0, "media": 0}
+    # the local variables holding the ICE / DTLS transport, whatever they are called: resolved receiver types
+    from engine.types import Types, members as _members
+    _ty = Types(prog)
+    _env = _ty.env(connect)
+
+    def _recv_class(call: ast.AST) -> str:
+        c = call.value if isinstance(call, ast.Await) else call
+        if not (isinstance(c, ast.Call) and isinstance(c.func, ast.Attribute)):
+            return ""
+        t = _ty.type_of(c.func.value, connect, _env)
+        names = {m[1].qualname for m in _members(t) if m[0] == "inst"} if t is not None else set()
+        return next(iter(names)) if len(names) == 1 else ""
+    transport_vars = {unparse(t) for n in walk_no_nested(connect.node) if isinstance(n, ast.Assign) for t in n.targets
+                      if isinstance(t, ast.Name) and isinstance(n.value, ast.Attribute) and n.value.attr == "transport"}
+    dtls_vars = {unparse(n.value.func.value) for n in walk_no_nested(connect.node) if isinstance(n, ast.Await) and call_name(n).endswith(".start")
+                 and _recv_class(n) == "rtcdtlstransport.RTCDtlsTransport"}
 
     def ev_conn(node, f):
-        if isinstance(node, ast.Await):
-            nm = call_name(node)
-            if nm.endswith("iceTransport.start"):
+        if isinstance(node, ast.Await) and call_name(node).endswith(".start"):
+            rc = _recv_class(node)
+            if rc == "rtcicetransport.RTCIceTransport":
                 return ["ice-started"]
-            if nm.endswith("dtlsTransport.start"):
+            if rc == "rtcdtlstransport.RTCDtlsTransport":
                 return ["dtls-started"]
-        if isinstance(node, ast.Assign) and any(unparse(t) in ("iceTransport", "dtlsTransport") for t in node.targets):
+        if isinstance(node, ast.Assign) and any(unparse(t) in transport_vars for t in node.targets):
             return ["-ice-started", "-dtls-started"]
         return []
 
@@ -744,16 +760,17 @@ def run(rep: Report, prog: Program, tier: str) -> None:
         if not isinstance(node, ast.Await):
             return
         nm = call_name(node)
-        if nm.endswith("dtlsTransport.start"):
+        if nm.endswith(".start") and _recv_class(node) == "rtcdtlstransport.RTCDtlsTransport":
             seen["dtls"] += 1
-            if "ice-started" not in st.events or not st.has_guard("dtlsTransport.state == 'new'"):
+            dv = unparse(node.value.func.value)
+            if "ice-started" not in st.events or not st.has_guard(f"{dv}.state == 'new'"):
                 rep.fail(mk_finding(prog, PROP, "C03-STARTED", connect, node, "the DTLS handshake is started without `await iceTransport.start(...)` before it on every path, or not under "
                                     "`dtlsTransport.state == 'new'`", construct="__connect: DTLS start not after ICE start"))
             else:
                 rep.ok("C03-STARTED", f"__connect line {node.lineno}: DTLS start after ICE start, only when new")
         elif nm.endswith("sender.send") or nm.endswith("receiver.receive") or nm.endswith("__sctp.start"):
             seen["media"] += 1
-            if "ice-started" not in st.events or not st.has_guard("dtlsTransport.state == 'connected'"):
+            if "ice-started" not in st.events or not any(st.has_guard(f"{dv_}.state == 'connected'") for dv_ in dtls_vars):
                 rep.fail(mk_finding(prog, PROP, "C03-STARTED", connect, node, f"`{nm}` is not under `dtlsTransport.state == 'connected'` after the ICE start", construct=f"__connect: {nm.split('.')[-2]} start unguarded"))
             else:
                 rep.ok("C03-STARTED", f"__connect line {node.lineno}: {nm} only once DTLS is connected")
